@@ -19,6 +19,7 @@ RULE = (
     "a reference that threads (coordinates, data, weights) by hand through FRESH instances of the steps using only their own "
     "fit / predict / filter. Histories: fit(D_a); fit(D_b) and filter-after-fit on the same chain versus a fresh one. Vector "
     "components versus separately fitted estimators on (data[i], weights[i]). Non-trivial: >= 2 steps or a Vector."
+    " Added axes: nested chains (plain and reducing), the default Spline, step names all equal / in reverse order, parameter routes for every step, repeated stations, data scaled by 1e-9, constant non-unit weights."
 )
 ASSUMPTIONS = ["the individual steps' fit / predict / filter are trusted here (they are the subject of C02, C09, C10, C15)",
                "agreement required to 1e-9 x data scale (both sides run the same verde kernels on the same numbers)"]
